@@ -9,6 +9,7 @@ import (
 	"fmt"
 	"math"
 	"math/big"
+	"strings"
 
 	"github.com/aclements/go-moremath/stats"
 	"verif.local/harness/refmodel"
@@ -28,7 +29,7 @@ func (p *Prop) Meta() simkit.Meta {
 		Real: []string{"stats.StreamStats.Add", "stats.StreamStats.Combine", "stats.StreamStats.{Weight,Mean,Variance,StdDev,RMS}", "fields Count/Total/Min/Max"},
 		Stub: []string{"stream source", "router", "reducer (merge tree)"},
 		Assumptions: []string{
-			"values are finite with |x| in [1e-6,1e12] or 0, so that squares neither overflow nor underflow (the statement speaks of large offsets, not of overflow)",
+			"values are finite with |x| in [1e-6,1e12] or 0 (optionally all scaled by 2^+-300 or 2^+-460), so that squares neither overflow nor underflow (the statement speaks of large offsets, not of overflow); counts are inflated to boundary values up to 2^40 by doubling merges, but not together with that scaling (squares times counts overflow in the merge formula)",
 			"struct copies of a StreamStats used as checkpoints are not generated; self-merge s.Combine(s) IS generated (rarely), with the documented meaning 'as if all samples added to o were added to s', i.e. every value counted twice - the pinned code computes exactly that",
 			"tolerances are derived from the data: |Total-ref| <= 8(n+4)eps*sum|x|, mean 8(n+4)eps*max|x|, variance abs error <= 8(n+4)^1.5*eps*sigma*sqrt(sigma^2+mean-square); observed/allowed is reported as max_error_over_bound",
 			"an empty accumulator is only required to report Count==0 and Total==0 and to behave as empty in every later event",
@@ -41,20 +42,23 @@ func (p *Prop) Meta() simkit.Meta {
 
 var notApplicableFaults = []string{"message loss/duplication/reordering", "partitions", "crash-restart with durable state", "torn/lost disk writes", "disk full", "clock skew/jumps", "allocation or syscall failure"}
 
-const maxCount = 4000
+const maxCount = 4000 // largest multiset kept explicitly (for the second history)
+
+const maxTotalCount = 1 << 41
 
 type ctx struct {
-	p     *Prop
-	g     simkit.G
-	opt   simkit.RunOpt
-	accs  []*stats.StreamStats
-	model []*refmodel.Acc
-	bags  [][]float64 // the multiset each accumulator stands for
-	hist  []string
-	hash  simkit.Hasher
-	viol  *simkit.Violation
-	nComb int
-	depth []int
+	p        *Prop
+	g        simkit.G
+	opt      simkit.RunOpt
+	accs     []*stats.StreamStats
+	model    []*refmodel.Acc
+	bags     [][]float64 // the multiset each accumulator stands for
+	hist     []string
+	hash     simkit.Hasher
+	viol     *simkit.Violation
+	nComb    int
+	countCap int // largest Count a Combine may produce in this run
+	depth    []int
 }
 
 func (c *ctx) logf(format string, a ...any) {
@@ -235,12 +239,15 @@ func (c *ctx) add(i int, x float64) {
 		return
 	}
 	c.model[i].Add(x)
-	c.bags[i] = append(c.bags[i], x)
+	c.model[i].Ops++
+	if c.bags[i] != nil || c.model[i].N == 1 {
+		c.bags[i] = append(c.bags[i], x)
+	}
 	c.check(i, "Add", "")
 }
 
 func (c *ctx) combine(i, j int) bool {
-	if c.model[i].N+c.model[j].N > maxCount {
+	if c.model[i].N+c.model[j].N > c.countCap {
 		return false
 	}
 	sig := "nonempty"
@@ -264,8 +271,15 @@ func (c *ctx) combine(i, j int) bool {
 	if !c.op("Combine", sig, func() { c.accs[i].Combine(c.accs[j]) }) {
 		return true
 	}
+	if c.model[i].Ops == 0 && c.model[j].Ops == 0 {
+		c.model[i].Ops = 1
+	}
 	c.model[i].Merge(c.model[j])
-	c.bags[i] = append(c.bags[i], c.bags[j]...)
+	if c.model[i].N <= maxCount && (c.bags[i] != nil || c.model[i].N == c.model[j].N) && (c.bags[j] != nil || c.model[j].N == 0) {
+		c.bags[i] = append(c.bags[i], c.bags[j]...)
+	} else {
+		c.bags[i] = nil // too large (or unknown) to keep explicitly
+	}
 	d := c.depth[j] + 1
 	if c.depth[i]+1 > d {
 		d = c.depth[i] + 1
@@ -283,7 +297,7 @@ func (c *ctx) combine(i, j int) bool {
 // selfCombine is s.Combine(s): "as if all samples added to o were added to s"
 // with o and s the same accumulator - every value counted twice.
 func (c *ctx) selfCombine(i int) {
-	if 2*c.model[i].N > maxCount {
+	if 2*c.model[i].N > c.countCap {
 		return
 	}
 	c.logf("Combine(acc%d[%s] <- acc%d itself)", i, c.flag(i), i)
@@ -295,9 +309,62 @@ func (c *ctx) selfCombine(i int) {
 		return
 	}
 	c.model[i].Merge(c.model[i].Clone())
-	c.bags[i] = append(c.bags[i], c.bags[i]...)
+	if c.bags[i] != nil && 2*len(c.bags[i]) <= maxCount {
+		c.bags[i] = append(c.bags[i], c.bags[i]...)
+	} else {
+		c.bags[i] = nil
+	}
 	c.depth[i]++
 	c.check(i, "Combine", "self")
+}
+
+// inflate brings accumulator i's Count to a boundary value (2^k-1, 2^k, 2^k+1,
+// k up to 40) by merging in D copies of one value, the D copies being built by
+// the library itself through doubling merges (P <- P, R <- P): a merge tree of
+// depth ~log2(D). Counts far beyond what 200 Adds reach are thus real
+// histories, and a following Add lands exactly on a boundary count.
+func (c *ctx) inflate(i int, v float64) {
+	k := c.g.Range(5, 40)
+	target := (1 << uint(k)) + c.g.Range(-1, 1)
+	cur := c.model[i].N
+	if target <= cur+1 || target > maxTotalCount {
+		return
+	}
+	d := target - cur
+	c.logf("inflate acc%d[%s] from %d to %d values by merging %d copies of %v built by doubling", i, c.flag(i), cur, target, d, v)
+	c.hash.Str(fmt.Sprintf("I%d", k))
+	c.probe("count_inflated_to_boundary")
+	if k >= 32 {
+		c.probe("count_at_or_beyond_2^32")
+	}
+	var p, r stats.StreamStats
+	depth := 1
+	ok := c.op("Combine", "inflate", func() {
+		p.Add(v)
+		for bit := uint(0); d>>bit > 0; bit++ {
+			if d>>bit&1 == 1 {
+				r.Combine(&p)
+			}
+			if d>>(bit+1) > 0 {
+				p.Combine(&p)
+			}
+			depth += 2
+		}
+		c.accs[i].Combine(&r)
+	})
+	if !ok {
+		return
+	}
+	c.nComb++
+	ops := c.model[i].Ops
+	if depth > ops {
+		ops = depth
+	}
+	c.model[i].AddN(v, d)
+	c.model[i].Ops = ops + 1
+	c.bags[i] = nil
+	c.depth[i] += 3
+	c.check(i, "Combine", "inflate")
 }
 
 func (c *ctx) reset(i int) {
@@ -306,7 +373,7 @@ func (c *ctx) reset(i int) {
 	c.hash.Word(uint64(i))
 	*c.accs[i] = stats.StreamStats{}
 	c.model[i] = refmodel.NewAcc()
-	c.bags[i] = nil
+	c.bags[i] = []float64{}
 	c.depth[i] = 0
 	c.check(i, "Reset", "")
 }
@@ -325,6 +392,11 @@ func (p *Prop) Run(t *simhook.Tape, opt simkit.RunOpt) *simkit.RunResult {
 		nvals = g.BoundarySize(0, 200)
 	}
 	xs, fam := genValues(g, nvals)
+	scaled := strings.Contains(fam, "*2^")
+	c.countCap = maxTotalCount
+	if scaled {
+		c.countCap = maxCount // squares near the end of the range times huge counts overflow in the merge formula
+	}
 	if opt.Counting {
 		p.St.Ops.Inc("family_" + famKey(fam))
 		if len(fam) > 6 && fam[:6] == "offset" && (fam == "offset(ratio=1e8)" || fam == "offset(ratio=1e9)") {
@@ -356,7 +428,7 @@ func (p *Prop) Run(t *simhook.Tape, opt simkit.RunOpt) *simkit.RunResult {
 	body := func() {
 		next := 0
 		// the loop is bounded by construction (an all-zero tape draws Combine forever)
-		for events := 0; c.viol == nil && next < len(xs) && events < 3*len(xs)+50; events++ {
+		for events := 0; c.viol == nil && next < len(xs) && events < 3*len(xs)+50 && !simhook.OverBudget(); events++ {
 			// maybe a Combine / Reset between Adds
 			if nacc > 1 && rates[combineRate] > 0 && g.Intn(rates[combineRate]) == 0 {
 				i := g.Intn(nacc)
@@ -373,6 +445,13 @@ func (p *Prop) Run(t *simhook.Tape, opt simkit.RunOpt) *simkit.RunResult {
 			}
 			if g.Chance(1, 60) {
 				c.selfCombine(g.Intn(nacc))
+				continue
+			}
+			if !scaled && g.Chance(1, 50) {
+				// (not together with the 2^+-460 scaling: squares times counts of 2^40
+				// overflow in the merge formula - an overflow corner, not what the
+				// statement is about)
+				c.inflate(g.Intn(nacc), xs[next])
 				continue
 			}
 			if len(fed) == 0 {
@@ -419,7 +498,10 @@ func (p *Prop) Run(t *simhook.Tape, opt simkit.RunOpt) *simkit.RunResult {
 	}
 	res, abort := simkit.RunSolo(t, 4000000, 100000, true, body)
 	rr := &simkit.RunResult{Hash: uint64(c.hash), Nontrivial: c.nComb > 0, Steps: res.Steps, History: c.hist, Policy: "seq"}
-	if abort != nil && c.viol == nil {
+	if abort != nil && !simkit.AbortIsVerdict(abort) {
+		rr.BudgetHit = true
+	}
+	if simkit.AbortIsVerdict(abort) && c.viol == nil {
 		c.viol = &simkit.Violation{Property: "C13", Oracle: "C13/no-progress", Op: "run", Seq: res.Steps, Message: abort.Reason + abort.Where()}
 		rr.BudgetHit = true
 	}
@@ -433,7 +515,7 @@ func (p *Prop) Run(t *simhook.Tape, opt simkit.RunOpt) *simkit.RunResult {
 // agree to within twice the bound).
 func (c *ctx) secondHistory(g simkit.G) {
 	bag := c.bags[0]
-	if len(bag) == 0 || len(bag) > 400 {
+	if len(bag) == 0 || len(bag) > 400 || len(bag) != c.model[0].N {
 		return
 	}
 	perm := g.Perm(len(bag))
